@@ -343,6 +343,20 @@ def r7_who_may_call(ctx):
         ctx.obligation(ok)
         (ctx.ok if ok else ctx.violation)('C07.R7', 'C07.R7/ReManager::new/library-creates-a-manager-only-for-MANAGER', RM + 'new', None,
                                           {'callers_of_new': sorted(callers_new), 'callers_of_default': sorted(callers_default), 'unexpected': sorted(extra | callers_default)}, cfg)
+        # (d) Complement keys are built only where the pairing is established (new, and make's registration of a fresh
+        # term): make answers a Complement key with id + 1, which is the complement only for a term with an even id, so
+        # any other function that builds such a key (e.g. to look a complement up through make) is wrong for odd ids
+        comp_sites = set()
+        for f in cr.nontest_fns():
+            if f.impl_of and f.impl_of.get('trait') and 'Clone' in f.impl_of.get('trait'):
+                continue
+            for b in f.blocks:
+                for st in b['stmts']:
+                    if st[0] == 'assign' and st[2][0] == 'agg' and isinstance(st[2][1], dict) and st[2][1].get('adt') == BRL.rstrip(':') and st[2][1].get('variant') == 'Complement':
+                        comp_sites.add(f.path)
+        okc = comp_sites == {RM + 'new', RM + 'make'}
+        ctx.obligation(okc)
+        (ctx.ok if okc else ctx.violation)('C07.R7', 'C07.R7/Complement-keys/built-only-in-new-and-make', RM + 'make', None, {'sites': sorted(comp_sites), 'unexpected': sorted(comp_sites - {RM + 'new', RM + 'make'})}, cfg)
         ok = indexers <= {RM + 'id_to_re'}
         ctx.obligation(ok)
         (ctx.ok if ok else ctx.violation)('C07.R7', 'C07.R7/id2re/indexed-only-by-id_to_re', RM + 'id_to_re', None, {'indexers': sorted(indexers)}, cfg)
